@@ -54,12 +54,14 @@ def run_chunk(item, ctx):
     sd = core.scratch_dir('c20')
     agg = {'item': item, 'runs': 0, 'nontrivial': set(), 'sigs': set(), 'states': set(),
            'probes': collections.Counter(), 'steps': 0, 'switches': 0, 'vtime': 0.0, 'violations': [], 'samples': [],
-           'selftest': {'twice': 0, 'replayed': 0, 'mismatch': []}, 'ops': 0, 'skipped': 0, 'digests': []}
+           'selftest': {'twice': 0, 'replayed': 0, 'mismatch': []}, 'ops': 0, 'skipped': 0, 'digests': [],
+           'agg': 0}
     try:
         for i in range(start, start + count):
             plan = plan_for(workload, fault_mode, verif_seed, i)
             r = mod.execute(plan, sd)
             agg['runs'] += 1
+            agg['agg'] = (agg['agg'] + core.h64((workload, fault_mode, i, r['log_digest']))) % (1 << 64)
             agg['ops'] += len(plan['ops'])
             if r.get('skipped'):
                 agg['skipped'] += 1
@@ -299,7 +301,7 @@ def main(argv=None):
                 remaining = True
     ctx = {'seed': seed, 'selftest_every': 100 if tier == 'quick' else 200, 'digests': True}
     tot = {'runs': 0, 'nontrivial': set(), 'sigs': set(), 'states': set(), 'probes': collections.Counter(),
-           'steps': 0, 'switches': 0, 'vtime': 0.0, 'ops': 0, 'skipped': 0}
+           'steps': 0, 'switches': 0, 'vtime': 0.0, 'ops': 0, 'skipped': 0, 'agg': 0}
     by_mix = collections.Counter()
     violations = []
     samples = []
@@ -308,6 +310,7 @@ def main(argv=None):
 
     def on_result(agg):
         tot['runs'] += agg['runs']
+        tot['agg'] = (tot['agg'] + agg['agg']) % (1 << 64)
         tot['ops'] += agg['ops']
         tot['skipped'] += agg['skipped']
         tot['nontrivial'].update(agg['nontrivial'])
@@ -462,6 +465,7 @@ def main(argv=None):
                                  'fresh_interpreter_same_hashseed': xproc['checked'],
                                  'fresh_interpreter_other_hashseed': xproc['checked_other_hashseed'],
                                  'mismatches': len(selftest['mismatch']) + len(xproc['mismatch'])},
+        'aggregate_digest_of_all_runs': '%016x' % tot['agg'],
         'stopped_by_wall_cap': bool(stopped),
         'processes': nproc,
         'real_code': ['tenpy.tools.cache.DictCache/CacheFile/Storage/PickleStorage/_NumpyStorage/_NpcArrayStorage/'
